@@ -60,25 +60,59 @@ type C15Case struct {
 	IdleMs     int     `json:"idle_ms,omitempty"` // emitters and the input stream pause this long half-way (a long-lived, mostly idle transport)
 }
 
+// c15Extras: the messages of other shapes that precede numbered message i on the input port.
+func c15Extras(i int) [][]byte {
+	var out [][]byte
+	if i%5 == 3 {
+		out = append(out, []byte{0xF8}) // timing clock
+	}
+	if i%7 == 2 {
+		out = append(out, []byte{0xFE}) // active sensing
+	}
+	if i%11 == 4 {
+		out = append(out, []byte{0xF0, 0x7D, byte(i & 0x7f), 0xF7}) // SysEx
+	}
+	if i%13 == 6 {
+		out = append(out, []byte{0xC0 | byte(i&0x0f), byte(i & 0x7f)}, []byte{0xFA}) // program change, start
+	}
+	return out
+}
+
+func c15IsExtra(m []byte) bool {
+	if len(m) == 0 {
+		return false
+	}
+	switch {
+	case len(m) == 1 && (m[0] == 0xF8 || m[0] == 0xFE || m[0] == 0xFA):
+		return true
+	case len(m) == 4 && m[0] == 0xF0 && m[3] == 0xF7:
+		return true
+	case len(m) == 2 && m[0]&0xf0 == 0xC0:
+		return true
+	}
+	return false
+}
+
 func seqMsg(seq int) []byte { return []byte{0x90, byte(seq >> 7 & 0x7f), byte(seq & 0x7f)} }
 func msgSeq(m []byte) int   { return int(m[1])<<7 | int(m[2]) }
 
 type c15Consumer struct {
-	id       int64
-	ch       <-chan midi.Event
-	got      []int
-	bad      string
-	stalled  int32
-	resume   chan struct{}
-	done     chan struct{}
-	last     int64 // last seq received (atomic), -1 none
-	begunAt  int64 // messages whose send had begun when SpawnOutput returned
-	seenMax  int64 // max seq any consumer had received when DespawnOutput was called (-1: n/a)
-	despawn  bool
-	byScript bool // detached by a script step (not by the final wind-down after the stream was delivered)
-	isDevice bool
-	devIn    chan *input.InputEvent
-	devDone  chan struct{}
+	id            int64
+	ch            <-chan midi.Event
+	got           []int
+	bad           string
+	pendingExtras [][]byte
+	stalled       int32
+	resume        chan struct{}
+	done          chan struct{}
+	last          int64 // last seq received (atomic), -1 none
+	begunAt       int64 // messages whose send had begun when SpawnOutput returned
+	seenMax       int64 // max seq any consumer had received when DespawnOutput was called (-1: n/a)
+	despawn       bool
+	byScript      bool // detached by a script step (not by the final wind-down after the stream was delivered)
+	isDevice      bool
+	devIn         chan *input.InputEvent
+	devDone       chan struct{}
 }
 
 const c15Guard = 6 * time.Second
@@ -184,6 +218,23 @@ func runC15(c *C15Case, nontrivial *bool) *Violation {
 			if idle > 0 && i == (c.InputN+1)/2 {
 				time.Sleep(idle)
 			}
+			// messages of other shapes travel with the numbered ones: real-time bytes, a SysEx, a 2-byte message (what the
+			// driver passes through); they belong to the numbered message that follows them
+			for _, x := range c15Extras(i) {
+				if c.Direct {
+					select {
+					case midiEventsIn <- midi.Event(x):
+					case <-ctx.Done():
+						return
+					}
+				} else {
+					select {
+					case pin.ch <- x:
+					case <-ctx.Done():
+						return
+					}
+				}
+			}
 			atomic.AddInt64(&begun, 1)
 			if c.Direct {
 				select {
@@ -221,10 +272,23 @@ func runC15(c *C15Case, nontrivial *bool) *Violation {
 						return
 					}
 					if len(m) != 3 || m[0] != 0x90 {
-						cs.bad = fmt.Sprintf("received % x, which is not a message that was sent", []byte(m))
-						return
+						if !c15IsExtra(m) {
+							if cs.bad == "" {
+								cs.bad = fmt.Sprintf("received % x, which is not a message that was sent", []byte(m))
+							}
+							continue // keep reading: the verdict is given at the end, the pipeline must not stall behind this consumer
+						}
+						cs.pendingExtras = append(cs.pendingExtras, append([]byte(nil), m...))
+						continue
 					}
 					s := msgSeq(m)
+					if len(cs.got) > 0 && cs.got[len(cs.got)-1]+1 == s && cs.bad == "" {
+						// two consecutive numbered messages: exactly the other-shaped messages that were sent between them
+						if want := c15Extras(s); fmt.Sprintf("% x", cs.pendingExtras) != fmt.Sprintf("% x", want) {
+							cs.bad = fmt.Sprintf("received [% x] between messages %d and %d, the port delivered [% x] there (messages of other shapes lost, duplicated or reordered)", cs.pendingExtras, s-1, s, want)
+						}
+					}
+					cs.pendingExtras = nil
 					cs.got = append(cs.got, s)
 					atomic.StoreInt64(&cs.last, int64(s))
 					for {
